@@ -1,6 +1,7 @@
 (* C08 — limb representation: normalisation, shifts and integer encoding are exact.
    This file holds only pinned statements, `exact` proofs and Print Assumptions. *)
-From PV Require Import Base.MachineInt Model.Znx Model.Limbs Proofs.ZnxDigit Proofs.C08Steps Proofs.C08Chain.
+From PV Require Import Base.MachineInt Model.Znx Model.Limbs Model.C08Oracle Proofs.ZnxDigit Proofs.C08Steps
+  Proofs.C08Chain Proofs.C08Loops Proofs.C08Value Proofs.C08Normalize.
 Open Scope Z_scope.
 
 Theorem C08_digit_spec : forall w b x : Z, 1 <= b <= w -> get_digit w b x = wrap b x.
@@ -150,3 +151,41 @@ Theorem C08_gap_saturates : forall b : Z, 1 <= b -> forall (c : Z) (g : nat), Z.
   car b zseq c (Nat.min g 64) = car b zseq c g.
 Proof. exact car_zseq_sat. Qed.
 Print Assumptions C08_gap_saturates.
+
+(* ---------------- same-radix normalisation with any signed bit offset (per coefficient, w = 64) ---------------- *)
+(* `dgz b (vin a lsh) t` = digit of position t of the balanced radix-2^b expansion of the integer
+   sum_j a_j 2^lsh 2^((|a|-1-j) b)  (0 for t < 0) *)
+
+(* closed form: the output is a window of the balanced expansion of the (un-normalised) input *)
+Theorem C08_normalize_inter_nth : forall b : Z, 1 <= b <= 62 -> forall (off : Z) (a r0 : list Z),
+  hrl a ->
+  let out := normalize_inter 64 b off a r0 in
+  length out = length r0 /\
+  forall i, (i < length r0)%nat ->
+    nthZ out i = dgz b (vin a (off mod b)) (zn (length a) - off / b - 1 - zn i).
+Proof. exact normalize_inter_nth. Qed.
+Print Assumptions C08_normalize_inter_nth.
+
+Theorem C08_normalize_inter_value : forall b : Z, 1 <= b <= 62 -> forall (off : Z) (a r0 : list Z),
+  Forall (fun x => Z.abs x <= 2 ^ 62) a ->
+  let out := normalize_inter 64 b off a r0 in
+  length out = length r0 /\
+  Forall (in_range b) out /\
+  out = normalize_inter 64 b off a (zeros (length r0)) /\
+  forall P, zn (length r0) * b + zn (length a) * b + Z.abs off <= P ->
+    let D := tor_abs P (val_scaled P b out - val_scaled (P + off) b a) in
+    D <= 2 ^ (P - zn (length r0) * b) /\
+    (zn (length a) * b - off <= zn (length r0) * b -> D = 0).
+Proof. exact normalize_inter_value. Qed.
+Print Assumptions C08_normalize_inter_value.
+
+Example C08_normalize_inter_value_ex :
+  let a := [2 ^ 62; -5; 123456789012; - 2 ^ 62] in
+  let out := normalize_inter 64 12 (-17) a [7; 7] in
+  tor_abs 100 (val_scaled 100 12 out - val_scaled (100 + -17) 12 a) <= 2 ^ (100 - 2 * 12).
+Proof.
+  intros a out.
+  destruct (C08_normalize_inter_value 12 ltac:(lia) (-17) a [7; 7]) as (_ & _ & _ & HV).
+  - repeat constructor; cbn; lia.
+  - apply (HV 100). cbn. lia.
+Qed.
